@@ -188,6 +188,10 @@ impl Gen<'_> {
         }
     }
     fn imm_text(&mut self, v: i64) -> String {
+        if self.cfg.boundary_imm && self.r.chance(1, 6) {
+            // spellings at the edge of the 32-bit range
+            return (*self.r.pick(&["-0x80000000", "0x80000000", "0xFFFFFFFF", "-2147483648", "2147483647", "-0x7FFFFFFF", "0b11111111111111111111111111111111", "-0b10000000000000000000000000000000"])).to_string();
+        }
         if v >= 0 && self.r.chance(1, 5) {
             format!("0x{v:x}")
         } else {
@@ -286,6 +290,7 @@ impl Gen<'_> {
             let slots = ctx.frame / 4;
             let off = 4 * self.r.range(0, slots - 1);
             let off = if self.cfg.discipline == 2 && self.r.chance(1, 5) { off + ctx.frame } else { off };
+            let off = if self.cfg.boundary_imm && self.r.chance(1, 4) { *self.r.pick(&[2147483647i64, -2147483648, 2147483632, -2147483647]) } else { off };
             if self.r.chance(1, 2) {
                 let s = self.src(ctx);
                 let s = self.reg(s);
